@@ -157,5 +157,5 @@ def clauses(tier):
     return [
         Clause("definition", check_definition,
                "non-trivial = >= 2 frames and at least one full overlap-save block (N >= D - M + 1); distinct by full case",
-               _cases, quick=1200, thorough=40000),
+               _cases, quick=1200, thorough=40000, fuzz_runs=2500),
     ]
